@@ -1,21 +1,11 @@
 import RainModel.Lemmas.LoopVerify
 /-!
 The verify command on a torrent that is **not** stopped: the command stops it; once the stop completes the
-pending verify restarts it without its bitfield, the files are re-opened and verified, and the torrent is
-`Stopped` with `doVerify` cleared — all within the same op when no tracker leaves the `stopped` event
+pending verify restarts it without its bitfield, the files are re-opened and verified (or found absent: fix
+for finding C04-F4), and the torrent is `Stopped` with `doVerify` cleared — all within the same op when no tracker leaves the `stopped` event
 unanswered.
 -/
 namespace Rain.Loop
-
-/-- `stop` on a torrent that is not stopped leaves the stop announcer running. -/
-theorem stop_stopAnn_of_errC (s : St) (e : Bool) (h : s.errC = true) : (s.stop e).stopAnn = true := by
-  rw [stop_eq]
-  split
-  · next hs =>
-    rcases hs with hs | hs
-    · exact ((status_stopping_iff s).1 hs).2
-    · rw [(status_stopped_iff s).1 hs] at h; cases h
-  · simp [stopRun, stopFin]
 
 /-- `stop` never removes a file. -/
 theorem stop_someFileExists (s : St) (e : Bool) (h : SomeFileExists s) : SomeFileExists (s.stop e) := by
@@ -43,12 +33,13 @@ theorem stop_someFileExists (s : St) (e : Bool) (h : SomeFileExists s) : SomeFil
 
 /-- **A pending verify on a stopping torrent completes.**  Workers' part of an op whose handler left the torrent
 `Stopping` with `doVerify` set, every tracker answering, both storage gates released, the metadata known,
-no storage failure and some file present: the stop announcer reports, `handleStopped` restarts the torrent
-without its bitfield, the allocator re-opens the files, the verifier runs, `handleVerificationDone` clears
-`doVerify` and stops the torrent, the stop announcer reports again: stopped. -/
+no storage failure: the stop announcer reports, `handleStopped` restarts the torrent without its bitfield, the
+allocator re-opens the files, the verifier runs, `handleVerificationDone` clears `doVerify` and stops the torrent
+(if no file existed the allocation result does, `alloc_verify_settles`), the stop announcer reports again:
+stopped. -/
 theorem pending_verify_completes (n : Nat) (r : M) (hl : Life r.1) (hpan : r.1.panicked = none)
     (hsa : r.1.stopAnn = true) (hh : r.1.stopHang = false) (hdv : r.1.doVerify = true) (hi : r.1.info = true)
-    (hf : r.1.failOpen = false) (hex : SomeFileExists r.1) (hgo : r.1.gateOpen = false) (hgr : r.1.gateRead = false) :
+    (hf : r.1.failOpen = false) (hgo : r.1.gateOpen = false) (hgr : r.1.gateRead = false) :
     (runWorkers (n + 4) r).1.errC = false ∧ (runWorkers (n + 4) r).1.doVerify = false := by
   obtain ⟨i1, i2, i3, i4, i5, i6, i7, i8⟩ := hl.idle (Or.inr hsa)
   -- the stop announcer reports: restart for the verify
@@ -68,27 +59,13 @@ theorem pending_verify_completes (n : Nat) (r : M) (hl : Life r.1) (hpan : r.1.p
     unfold handleStopped startCore; simp only [onSt_fst]; repeat' split
     all_goals simpa using hf
   have a12 : (handleStopped r).1.stopHang = false := by simpa using hh
-  have hexA : SomeFileExists (handleStopped r).1 := by
-    unfold SomeFileExists at hex ⊢
-    simpa using hex
-  -- allocation → verifier
-  obtain ⟨b1, b2, b3, b4, b5, b6, b7⟩ := allocatorRun_to_verifier (handleStopped r) a8 a7 hexA
-  have hlB := allocatorRun_life (handleStopped r) hlS a3
-  -- verification → stop
-  obtain ⟨c1, c2, c3, c4⟩ := handleVerificationDone_doVerify_stop (allocatorRun (handleStopped r)) (by rw [b6]; exact a6)
-    (by rw [b7]; exact a9) (by rw [b3]; exact a2) (by rw [b4]; exact a1)
-  have hlC := handleVerificationDone_life _ hlB b1
-  have hrun : runWorkers (n + 4) r = runWorkers (n + 1) (handleVerificationDone (allocatorRun (handleStopped r))) := by
-    rw [runWorkers_stopped (n + 3) r hpan hsa hh, runWorkers_alloc (n + 2) _ a1 a2 a3 a4,
-      runWorkers_ver (n + 1) _ (by rw [b4]; exact a1) (by rw [b3]; exact a2) b2 b1 (by rw [b5]; exact a5)]
-  have hsh : (handleVerificationDone (allocatorRun (handleStopped r))).1.stopHang = false := by
-    simp only [handleVerificationDone_stopHang, allocatorRun_stopHang]; exact a12
-  obtain ⟨d1, d2⟩ := settle_not_running n _ hlC c3 c2 (Or.inr c1)
-  rw [hrun]
+  -- allocation (→ verification) → stop
+  obtain ⟨d1, d2⟩ := alloc_verify_settles n (handleStopped r) hlS a1 a2 a3 a4 a5 a6 a7 a8 a9
+  rw [runWorkers_stopped (n + 3) r hpan hsa hh]
   refine ⟨?_, d1⟩
   rcases d2 with d2 | ⟨d2, _⟩
   · exact d2
-  · rw [hsh] at d2; cases d2
+  · rw [a12] at d2; cases d2
 
 /-- What the handler of `Op.verify` leaves behind on a torrent that is not stopped. -/
 theorem verify_running_handle_fields (s : St) (p : Parked) (kn : Nat → Bool) (he : s.errC = true)
@@ -112,10 +89,10 @@ theorem verify_running_handle_fields (s : St) (p : Parked) (kn : Nat → Bool) (
   exact this
 
 /-- **verify on a torrent that is not stopped.**  Any status other than `Stopped` (downloading, seeding,
-allocating or verifying behind a gate, stopping), metadata known, some file of the torrent present, no
-storage failure, every tracker answering: the op ends `Stopped` with `doVerify` cleared. -/
+allocating or verifying behind a gate, stopping), metadata known, no storage failure, every tracker answering:
+the op ends `Stopped` with `doVerify` cleared (whether or not any file of the torrent exists: fix C04-F4). -/
 theorem verify_from_running_ends_stopped (s : St) (p : Parked) (kn : Nat → Bool) (h : Life s) (he : s.errC = true)
-    (hi : s.info = true) (hp : s.panicked = none) (hf : s.failOpen = false) (hex : SomeFileExists s)
+    (hi : s.info = true) (hp : s.panicked = none) (hf : s.failOpen = false)
     (hh : s.stopHang = false) :
     (step s p kn .verify).1.st.status = .stopped ∧ (step s p kn .verify).1.st.doVerify = false := by
   rw [status_stopped_iff, step_st]
@@ -124,7 +101,7 @@ theorem verify_from_running_ends_stopped (s : St) (p : Parked) (kn : Nat → Boo
     verify_running_handle_fields { s with sto := [], mayStart := [], closedDl := [], mayStartI := false } p kn he hp
   generalize hm : (handle { s with sto := [], mayStart := [], closedDl := [], mayStartI := false } p kn .verify) = r at *
   have hlA : Life r.1.1 := by rw [← hm]; exact handle_life _ p kn .verify h0
-  obtain ⟨d1, d2⟩ := pending_verify_completes 8 r.1 hlA a1 a2 (a8.trans hh) a5 (a7.trans hi) (a6.trans hf) (a9 hex) a3 a4
+  obtain ⟨d1, d2⟩ := pending_verify_completes 8 r.1 hlA a1 a2 (a8.trans hh) a5 (a7.trans hi) (a6.trans hf) a3 a4
   rw [settle_step _ r.2.2 p.isSome (runWorkers_life 12 r.1 hlA) (Or.inl d1)]
   exact ⟨d1, d2⟩
 
@@ -155,13 +132,12 @@ theorem runWorkers_hangs_dv (fuel : Nat) (m : M) (h : Life m.1) (hs : m.1.stopAn
 ends `Stopped` with `doVerify` cleared, or a tracker does not answer the `stopped` event and the torrent is
 `Stopping` with the verify still pending (it runs when the stop completes: `Op.waitstop`, or a `start`). -/
 theorem verify_from_running_ends_stopped_or_hangs (s : St) (p : Parked) (kn : Nat → Bool) (h : Life s)
-    (he : s.errC = true) (hi : s.info = true) (hp : s.panicked = none) (hf : s.failOpen = false)
-    (hex : SomeFileExists s) :
+    (he : s.errC = true) (hi : s.info = true) (hp : s.panicked = none) (hf : s.failOpen = false) :
     ((step s p kn .verify).1.st.status = .stopped ∧ (step s p kn .verify).1.st.doVerify = false) ∨
     (s.stopHang = true ∧ (step s p kn .verify).1.st.status = .stopping ∧
       (step s p kn .verify).1.st.stopHang = true ∧ (step s p kn .verify).1.st.doVerify = true) := by
   cases hh : s.stopHang
-  · exact Or.inl (verify_from_running_ends_stopped s p kn h he hi hp hf hex hh)
+  · exact Or.inl (verify_from_running_ends_stopped s p kn h he hi hp hf hh)
   · refine Or.inr ⟨rfl, ?_⟩
     rw [status_stopping_iff, step_st]
     have h0 : Life { s with sto := [], mayStart := [], closedDl := [], mayStartI := false } := h.congr (by lframe)
@@ -177,7 +153,7 @@ theorem verify_from_running_ends_stopped_or_hangs (s : St) (p : Parked) (kn : Na
 runs to the end: `Stopped`, `doVerify` cleared. -/
 theorem pending_verify_waitstop (s : St) (p : Parked) (kn : Nat → Bool) (h : Life s)
     (hs : s.stopAnn = true) (hdv : s.doVerify = true) (hi : s.info = true) (hp : s.panicked = none)
-    (hf : s.failOpen = false) (hex : SomeFileExists s) (hgo : s.gateOpen = false) (hgr : s.gateRead = false) :
+    (hf : s.failOpen = false) (hgo : s.gateOpen = false) (hgr : s.gateRead = false) :
     (step s p kn .waitstop).1.st.status = .stopped ∧ (step s p kn .waitstop).1.st.doVerify = false := by
   rw [status_stopped_iff, step_st]
   generalize hm : (handle { s with sto := [], mayStart := [], closedDl := [], mayStartI := false } p kn .waitstop) = r
@@ -185,7 +161,7 @@ theorem pending_verify_waitstop (s : St) (p : Parked) (kn : Nat → Bool) (h : L
   have hlA : Life r.1.1 := by rw [← hm]; exact handle_life _ p kn .waitstop h0
   obtain ⟨d1, d2⟩ := pending_verify_completes 8 r.1 hlA (by rw [← hm]; exact hp) (by rw [← hm]; exact hs)
     (by rw [← hm]; rfl) (by rw [← hm]; exact hdv) (by rw [← hm]; exact hi) (by rw [← hm]; exact hf)
-    (by rw [← hm]; exact hex) (by rw [← hm]; exact hgo) (by rw [← hm]; exact hgr)
+    (by rw [← hm]; exact hgo) (by rw [← hm]; exact hgr)
   rw [settle_step _ r.2.2 p.isSome (runWorkers_life 12 r.1 hlA) (Or.inl d1)]
   exact ⟨d1, d2⟩
 
